@@ -114,6 +114,15 @@ impl StudentsT {
         ensures self.standard() ==> r.v() == t_quantile(p.v(), self.dof()),
     { unimplemented!() }
 }
+// further special functions of statrs / core a maintainer might reach for (MODEL: each computes the mathematical function of
+// the same name, an uninterpreted spec function constrained only by true mathematics; prelude/real.rs)
+#[verifier::external_body]
+pub fn erf_inv(x: R) -> (r: R) ensures r.v() == erf_inv_spec(x.v()) { unimplemented!() }
+#[verifier::external_body]
+pub fn erf(x: R) -> (r: R) ensures r.v() == erf_spec(x.v()) { unimplemented!() }
+#[allow(non_snake_case)]
+#[verifier::external_body]
+pub fn SQRT_2_const() -> (r: R) ensures r.v() == sqrt_spec(2real) { unimplemented!() }
 //@freefn src/stats.rs z_value ret z vis pub
 //@| requires conf_valid(confidence),
 //@| ensures z.v() == normal_quantile(conf_quantile(confidence)),
